@@ -107,6 +107,7 @@ class RunStream(C.Stream):
     p_interrupt = 0.0             # probability of an injected keyboard interrupt
     p_fault = 0.0                 # probability of a failing reporting backend
     p_both = 0.0                  # probability of a failing reporting backend AND a keyboard interrupt in the same run
+    p_listeners = 0.0             # probability of further listeners of ONE class with per-instance handler sets (observe.SubsetSession)
     p_base_fault = 0.0            # share of the backend faults that are BaseExceptions `except Exception` does not catch
     quick_cases = 60
     thorough_cases = 8000
@@ -120,6 +121,12 @@ class RunStream(C.Stream):
         project["nb_threads"] = rng.choice(list(self.threads))
         case = {"project": project, "strategy": rng.choice(list(self.strategies)), "gseed": rng.randrange(1 << 24),
                 "interrupt": None, "fault": None}
+        if self.p_listeners and rng.random() < self.p_listeners:
+            # 2..3 sessions of one class; the less complete ones tend to come first
+            shapes = [rng.choice(O.LISTENER_SHAPES) for _ in range(rng.choice([2, 2, 3]))]
+            if rng.random() < 0.5:
+                shapes.sort(key=lambda sh: len(O.listener_events(sh)))
+            case["listeners"] = shapes
         r = rng.random()
         # p_both: a backend failure AND a keyboard interrupt in the same run (either may come first: the fault's event
         # index and the interrupt's completion count are drawn independently)
@@ -140,7 +147,7 @@ class RunStream(C.Stream):
 
     def impl(self, case):
         obs = O.run_project(case["project"], strategy=case["strategy"], gate_seed=case["gseed"],
-                            interrupt_at=case["interrupt"], backend_fault=case["fault"])
+                            interrupt_at=case["interrupt"], backend_fault=case["fault"], listeners=case.get("listeners"))
         if ("C05" in self.oracles and not case["interrupt"] and not case["fault"]
                 and (case["project"]["nb_threads"] != 1 or case["strategy"] != "off")):
             base = O.run_project(dict(case["project"], nb_threads=1), strategy="off")
@@ -220,6 +227,13 @@ class RunStream(C.Stream):
             f.append("interrupt-" + case["interrupt"][0] + ("-delivered" if any(r[0] == "interrupt" for r in obs["trace"]) else "-missed"))
         if case["fault"]:
             f.append("fault-" + case["fault"]["cls"] + ("-fired" if any(r[0] == "backend-raise" for r in obs["trace"]) else "-not-reached"))
+        if case.get("listeners"):
+            sizes = [len(O.listener_events(sh)) for sh in case["listeners"]]
+            f.append("listeners-of-one-class=%d" % len(sizes))
+            if any(a < b for a, b in zip(sizes, sizes[1:])):
+                f.append("less-complete-listener-registered-first")
+            if len(set(map(tuple, map(O.listener_events, case["listeners"])))) > 1:
+                f.append("listeners-with-different-handler-sets")
         if case["fault"] and case["interrupt"]:
             ks = [r[0] for r in obs["trace"] if r[0] in ("backend-raise", "interrupt")]
             if len(ks) == 2:
@@ -239,3 +253,6 @@ class RunStream(C.Stream):
                 yield dict(case, fault=dict(case["fault"], k=case["fault"]["k"] - 1))
         if case["strategy"] != "off":
             yield dict(case, strategy="off")
+        if case.get("listeners") and len(case["listeners"]) > 2:
+            for j in range(len(case["listeners"])):
+                yield dict(case, listeners=case["listeners"][:j] + case["listeners"][j + 1:])
